@@ -13,16 +13,31 @@ def load():
 
 
 def match_open(prop, failure):
-    """an open finding suppresses exactly the violation it names: same property, same obligation id,
-    same repository source line text at the failing site"""
+    """an open finding suppresses exactly the violation it names: same property, same obligation id, and the
+    repository text of the failing function exactly as recorded (any edit of that code makes it a new violation)"""
     for e in load():
         if e.get('status') != 'open':
             continue
         if e.get('property') != prop:
             continue
-        if e.get('obligation') != failure.get('obligation'):
+        sites = e.get('sites') or {e.get('obligation'): e.get('site_text')}
+        ob = failure.get('obligation')
+        if ob not in sites:
             continue
-        if e.get('site_text') and e['site_text'].strip() != (failure.get('source_text') or '').strip():
+        want = sites[ob]
+        if want and want.strip() != (failure.get('source_text') or '').strip():
+            continue
+        bodies = e.get('site_bodies') or {}
+        if ob in bodies and bodies[ob].split() != (failure.get('function_repo_text') or '').split():
             continue
         return e
     return None
+
+
+def open_cases(prop):
+    """witness-case tags of the open findings of a property: the native cross-check skips exactly these cases"""
+    out = []
+    for e in load():
+        if e.get('status') == 'open' and e.get('property') == prop:
+            out.extend(e.get('witness_cases', []))
+    return out
